@@ -5,6 +5,7 @@ import (
 	"flag"
 	"fmt"
 	"os"
+	"os/exec"
 	"path/filepath"
 	"sort"
 	"strings"
@@ -22,6 +23,7 @@ type unitRun struct {
 }
 
 var dumpOnly bool
+var verifRoot = "/verif"
 
 func main() {
 	var (
@@ -42,6 +44,7 @@ func main() {
 		*keep = true
 		*noEvid = true
 	}
+	verifRoot = *verif
 	for _, kv := range goEnv() {
 		if i := strings.Index(kv, "="); i > 0 {
 			os.Setenv(kv[:i], kv[i+1:])
@@ -311,9 +314,7 @@ func report(w *World, units []*unitRun, prop, tier, verif string, t0 time.Time, 
 			}
 			suffix := ""
 			reproduced := false
-			if r.Status == "refuted" {
-				reproduced = tryReplay(w, r, rep)
-			}
+			reproduced = tryReplay(w, r, rep)
 			if !reproduced {
 				suffix = " no-failing-input-found"
 			}
@@ -378,6 +379,49 @@ func truncate(s string, n int) string {
 	return s
 }
 
+// tryReplay runs the replay driver of the unit, if there is one: an in-package Go test kept under
+// /verif/replaydrivers/<pkgdir>/<name>_test.go.txt that is injected with `go test -overlay` (nothing is written
+// into /repo). The driver receives the failed obligation and the solver's (candidate) model, concretises it
+// into real inputs, calls the real function and evaluates the violated clause with an executable oracle.
+// It prints `REPRODUCED: <input>` when the real code violates the clause.
 func tryReplay(w *World, r *Result, rep map[string]any) bool {
+	unit := r.Ob.Unit
+	i := strings.Index(unit, ":")
+	if i < 0 {
+		return false
+	}
+	dir, fn := unit[:i], unit[i+1:]
+	driver := filepath.Join(verifRoot, "replaydrivers", dir, sanitizeFile(fn)+"_test.go.txt")
+	if _, err := os.Stat(driver); err != nil {
+		rep["replay"] = "no replay driver for this unit"
+		return false
+	}
+	tmp, err := os.MkdirTemp("", "govc-replay-")
+	if err != nil {
+		return false
+	}
+	defer os.RemoveAll(tmp)
+	model, _ := json.Marshal(r.Model)
+	modelPath := filepath.Join(tmp, "model.json")
+	_ = os.WriteFile(modelPath, model, 0o644)
+	target := filepath.Join(w.repo, dir, "zz_govc_replay_test.go")
+	ov, _ := json.Marshal(map[string]any{"Replace": map[string]string{target: driver}})
+	ovPath := filepath.Join(tmp, "overlay.json")
+	_ = os.WriteFile(ovPath, ov, 0o644)
+	cmd := exec.Command("go", "test", "-overlay", ovPath, "-vet=off", "-v", "-count=1", "-timeout", "120s", "-run", "^TestGovcReplay$", ".")
+	cmd.Dir = filepath.Join(w.repo, dir)
+	cmd.Env = append(goEnv(), "GOVC_OBLIGATION="+r.Ob.Name, "GOVC_MODEL="+modelPath, "GOVC_KIND="+r.Ob.Kind)
+	out, _ := cmd.CombinedOutput()
+	text := string(out)
+	rep["replay_cmd"] = "cd " + cmd.Dir + " && GOVC_OBLIGATION='" + r.Ob.Name + "' go test -overlay <driver overlay> -vet=off -run ^TestGovcReplay$ ."
+	rep["replay_output"] = truncate(text, 3000)
+	for _, l := range strings.Split(text, "\n") {
+		if j := strings.Index(l, "REPRODUCED:"); j >= 0 && !strings.Contains(l, "NOT-REPRODUCED") {
+			rep["reproduced"] = true
+			rep["failing_input"] = strings.TrimSpace(l[j+len("REPRODUCED:"):])
+			return true
+		}
+	}
+	rep["reproduced"] = false
 	return false
 }
